@@ -26,6 +26,7 @@ def errJ : CutErr → Json
   | .allThree => "allThree"
   | .stepAlone => "stepAlone"
   | .nonPositive => "nonPositive"
+  | .tooFewRows => "tooFewRows"
 
 def handleCutoff (op : String) (j : Json) : Except String Json := do
   match op with
